@@ -276,3 +276,9 @@ package expr
 //@ interface Params.Get
 //@   params this, name
 //@   modifies nothing
+
+// C05/C06: a SHIFTed expression re-aggregated from stored fields steps back through each stored field's data with THAT
+// field's accumulator width (not its own).
+//@ func (*shift).SubMergers
+//@   modifies *
+//@   at call (*expr.shift).shiftedSubMerger assert steps_by_stored_field_width: callarg2 == subs[i].EncodedWidth()
